@@ -166,7 +166,13 @@ impl OodFrame {
         // `set_trace_states()`.
         let (current_row, next_row) = {
             let mut reader = SliceReader::new(&self.trace_states);
+            // there are 2 frames: current and next (see `set_trace_states()`)
             let frame_size = reader.read_u8()? as usize;
+            if frame_size != 2 {
+                return Err(DeserializationError::InvalidValue(format!(
+                    "trace evaluation frame must consist of 2 rows, but {frame_size} were specified"
+                )));
+            }
             let trace = reader.read_many((main_trace_width + aux_trace_width) * frame_size)?;
 
             if reader.has_more_bytes() {
